@@ -155,3 +155,68 @@ def cte_alias_shapes(draw):
     meta = {'order_cols': [], 'total_order': False, 'limit': False, 'tags': sorted(tags), 'places': ['int1', 'int2'],
             'tables': sorted({f'{a[0]}.{a[1]}', f'{b[0]}.{b[1]}'}), 'types': ['int'] * len(tcols)}
     return {'sql': sql, 'meta': meta}
+
+
+# ---- bounded-exhaustive part of the order-item family -------------------------------------------------------------
+ORDER_DATA = [
+    # the columns of a table are sorted against each other (ordering by the wrong column keeps other rows), NULL keys
+    {'t1': [[0, 3, 'x'], [1, 2, 'y'], [2, 1, 'x'], [3, 0, None], [None, 1, 'y']], 't2': [[0, 3], [1, 2], [2, 1], [3, 0]],
+     't3': [[0, 3], [1, 2], [2, 1], [3, 0], [None, 2]], 't4': [[0, 2], [1, 3], [2, 0], [3, 1]],
+     'int2.t1': [[0, 3, 'x'], [1, 2, 'y'], [2, 1, 'y'], [3, 0, 'x']]},
+    # duplicate keys, rows without a partner in the other integration
+    {'t1': [[1, 1, 'x'], [1, 3, 'y'], [2, 0, 'x'], [3, 2, 'x']], 't2': [[1, 2], [2, 3], [2, 0]],
+     't3': [[2, 1], [2, 3], [0, 0], [1, 2]], 't4': [[3, 1], [1, 0], [3, 2]], 'int2.t1': [[2, 3, 'x'], [0, 1, 'y'], [2, 0, 'y']]},
+]
+TARGET_FORMS = [('plain', 'plain'), ('renamed', 'renamed'), ('plain', 'renamed'), ('computed', 'plain'),
+                ('computed-unnamed', 'renamed')]
+ITEM_FORMS = ['position', 'column', 'alias', 'neg', 'plus0', 'func', 'alias-expr']
+LIMITS = [' LIMIT 2', ' LIMIT 1', ' LIMIT 1 OFFSET 1', '']
+
+
+def order_item_space():
+    """Every (source x select-list order x target forms x ORDER BY item form on each target x direction x LIMIT) of
+    the order-item family with one ORDER BY item, over two fixed table contents (taken in turn)."""
+    sources = []
+    for t in INT2_TABLES:
+        c0, c1 = int_cols(t)[:2]
+        sources.append(('api', f'{t[0]}.{t[1]} AS x1', 'api-int2', ['int2'], [f'{t[0]}.{t[1]}'],
+                        [(('x1', c0), ('x1', c1)), (('x1', c1), ('x1', c0))]))
+    for a, b, jk, cat in ((('int1', 't1'), ('int2', 't3'), 'LEFT JOIN', 'names'), (('int2', 't4'), ('int1', 't2'), 'LEFT JOIN', 'default-int1'),
+                          (('int1', 't2'), ('int2', 't1'), 'JOIN', 'dicts'), (('int2', 't3'), ('int1', 't1'), 'LEFT OUTER JOIN', 'api-int2')):
+        a0, a1 = int_cols(a)[:2]
+        b1 = int_cols(b)[1]
+        sources.append(('join' if cat != 'api-int2' else 'join-api', f'{a[0]}.{a[1]} AS x1 {jk} {b[0]}.{b[1]} AS x2 ON (x1.a = x2.a)', cat,
+                        ['int1', 'int2'], sorted([f'{a[0]}.{a[1]}', f'{b[0]}.{b[1]}']),
+                        [(('x1', a0), ('x1', a1)), (('x1', a1), ('x1', a0)), (('x1', a1), ('x2', b1)), (('x2', b1), ('x1', a0))]))
+    i = j = 0
+    for src, frm, cat, places, tables, selections in sources:
+        for picked in selections:
+            for forms in TARGET_FORMS:
+                targets = []
+                for k, ((al, c), form) in enumerate(zip(picked, forms)):
+                    targets.append({'plain': (f'{al}.{c}', None), 'renamed': (f'{al}.{c}', f'c{k}'),
+                                    'computed': (f'({al}.{c} + 1)', f'c{k}'), 'computed-unnamed': (f'({al}.{c} + 1)', None)}[form])
+                tl = ', '.join(t_ if a_ is None else f'{t_} AS {a_}' for t_, a_ in targets)
+                for k, (al, c) in enumerate(picked):
+                    for form in ITEM_FORMS:
+                        if form in ('alias', 'alias-expr') and targets[k][1] is None:
+                            continue
+                        txt = {'position': str(k + 1), 'column': f'{al}.{c}', 'alias': targets[k][1], 'neg': f'(- {al}.{c})',
+                               'plus0': f'({al}.{c} + 0)', 'func': f'abs({al}.{c})', 'alias-expr': f'({targets[k][1]} + 0)'}[form]
+                        j += 1
+                        # api source: the full product; joins: the direction alternates, three LIMIT variants
+                        for dr in (('', ' DESC') if src == 'api' else (('', ' DESC')[j % 2],)):
+                            for lim in (LIMITS if src == 'api' else LIMITS[:1] + LIMITS[2:]):
+                                i += 1
+                                base = f'SELECT {tl} FROM {frm} ORDER BY {txt}{dr}'
+                                tags = {'shape:order-item', 'shape:order-item-exhaustive', 'order-src:' + src, 'order',
+                                        'order-item:' + form,
+                                        'targets:plain' if forms == ('plain', 'plain') else 'targets:not-plain'}
+                                meta = {'order_cols': [k], 'total_order': False, 'limit': bool(lim)}
+                                if lim:
+                                    tags |= {'limit', 'limit:partial-order'}
+                                    meta['sql_unlimited'] = base
+                                if 'OFFSET' in lim:
+                                    tags.add('offset')
+                                meta.update({'tags': sorted(tags), 'places': places, 'tables': tables, 'types': ['int', 'int']})
+                                yield {'sql': base + lim, 'meta': meta, 'data': ORDER_DATA[i % 2], 'catalog': cat}
